@@ -20,12 +20,30 @@ from sim.pool import namespaces
 from sim.simes import Installed, Outcome, SimES
 from sim.vclock import VClock
 
-PLUGIN = '''from sim.loadsim import SimParamSource, SimRunner
+PLUGIN = '''import os
+
+from sim.loadsim import PROCESSOR_RAISED, SimParamSource, SimRunner
+
+
+class SimProcessor:
+    """a track processor of the plug-in whose preparation step fails (only registered when the harness asks for it)"""
+
+    def on_after_load_track(self, track):
+        pass
+
+    def on_prepare_track(self, track, data_root_dir):
+        PROCESSOR_RAISED.append(1)
+        raise RuntimeError("simulated track processor failure")
 
 
 def register(registry):
     registry.register_param_source("sim-params", SimParamSource)
     registry.register_runner("sim-op", SimRunner(), async_runner=True)
+    if os.path.exists(os.path.join(os.path.dirname(__file__), "processor-raises")):
+        from esrally.track import loader
+
+        registry.register_track_processor(loader.DefaultTrackPreparator())
+        registry.register_track_processor(SimProcessor())
 '''
 
 
